@@ -10,7 +10,7 @@ ACCEPT = {"t": "int", "v": 4242}
 
 
 def to_case(p):
-    c = {"ins": p["ins"], "l": p["l"], "unary": p["unary"], "mode": p["mode"]}
+    c = {"ins": p["ins"], "l": p["l"], "unary": p["unary"], "mode": p["mode"], "via": p.get("via", "direct")}
     if not p["unary"]:
         c["r"] = p["r"]
     if p["mode"] == "decline":
@@ -51,9 +51,9 @@ def decide(out, obs, n, st):
     for fl in fails:
         for f in fl["fails"]:
             lt, rt = fl["l"].get("t"), fl["r"].get("t")
-            why = "%s(%s, %s) mode=%s [%s]: %s %s" % (fl["ins"], lt, rt, fl["mode"], f["store"], f["why"], (f.get("msg") or "")[:80])
-            out.fail(f.get("kf", "NEW"), why, {"ins": fl["ins"], "l": fl["l"], "r": fl["r"], "mode": fl["mode"], "store": f["store"], "why": f["why"], "msg": f.get("msg", "")},
-                     family="%s [%s] %s %s" % (fl["ins"], f["store"], f["why"], (f.get("msg") or "")[:50]))
+            why = "%s(%s, %s) mode=%s%s [%s]: %s %s" % (fl["ins"], lt, rt, fl["mode"], " in a working copy of the store" if fl.get("via") == "clone" else "", f["store"], f["why"], (f.get("msg") or "")[:80])
+            out.fail(f.get("kf", "NEW"), why, {"ins": fl["ins"], "l": fl["l"], "r": fl["r"], "mode": fl["mode"], "via": fl.get("via", "direct"), "store": f["store"], "why": f["why"], "msg": f.get("msg", "")},
+                     family="%s [%s%s] %s %s" % (fl["ins"], f["store"], " copy" if fl.get("via") == "clone" else "", f["why"], (f.get("msg") or "")[:50]))
 
 
 def replay(out, path):
@@ -61,7 +61,7 @@ def replay(out, path):
     wd = vlib.workdir(out.pid)
     cases = os.path.join(wd, "cases.ndjson")
     p = {"ins": case["ins"], "l": case["l"], "r": case.get("r"), "unary": case.get("r", {}).get("t") == "unit" and case["ins"] in
-         ("Opposite", "AbsoluteValue", "BitwiseNot", "AccessLeftInternal", "AccessRightInternal", "AccessLengthInternal", "EmptyApply"), "mode": case["mode"]}
+         ("Opposite", "AbsoluteValue", "BitwiseNot", "AccessLeftInternal", "AccessRightInternal", "AccessLengthInternal", "EmptyApply"), "mode": case["mode"], "via": case.get("via", "direct")}
     vlib.write_ndjson(cases, [to_case(p)])
     obs = os.path.join(wd, "obs.ndjson")
     st = vlib.run_workers("op", cases, 1, obs)
